@@ -34,6 +34,24 @@ func (o Opt4) ToOpt() trie.Opt {
 	return trie.Opt{DedupValue: tri(o.D), InnerPrefix: tri(o.I), LeafPrefix: tri(o.L), Complete: tri(o.C)}
 }
 
+// ToOptMinimal leaves the fields nil that carry their default.
+func (o Opt4) ToOptMinimal() trie.Opt {
+	m := o
+	if m.D == 1 {
+		m.D = -1
+	}
+	if m.I == 0 {
+		m.I = -1
+	}
+	if m.L == 0 {
+		m.L = -1
+	}
+	if m.C == 0 {
+		m.C = -1
+	}
+	return m.ToOpt()
+}
+
 // ToOptShared makes a trie.Opt whose fields share one cell per Boolean value.
 func (o Opt4) ToOptShared() trie.Opt {
 	cells := map[int8]*bool{0: trie.Bool(false), 1: trie.Bool(true)}
@@ -281,7 +299,7 @@ func (e EncSpec) Encoder() encode.Encoder {
 		return encode.Int{}
 	case "U16":
 		return encode.U16{}
-	case "U32":
+	case "U32", "NilU32":
 		return encode.U32{}
 	case "U64":
 		return encode.U64{}
@@ -449,7 +467,7 @@ func (e EncSpec) Values(ids []int) interface{} {
 			r[i] = uint16(x*0x0101 + 0x8000)
 		}
 		return r
-	case "U32":
+	case "U32", "NilU32":
 		r := make([]uint32, n)
 		for i, x := range ids {
 			r[i] = uint32(x)*0x01010101 + 0x80000000
@@ -506,6 +524,10 @@ type Case struct {
 	Opt    Opt4
 	// NoOptArg: call NewSlimTrie without an Opt argument (Opt must be all-nil then).
 	NoOptArg bool
+	// Minimal: the fields that carry their default (DedupValue=true, the others
+	// false) are left nil, as a caller who only sets what it needs would write it
+	// (Opt{Complete: trie.Bool(true)}).
+	Minimal bool
 	// SharedCells: the option fields that carry the same Boolean point to ONE
 	// shared cell (no := trie.Bool(false); Opt{DedupValue: no, InnerPrefix: no, ...}).
 	SharedCells bool
@@ -519,10 +541,11 @@ type CaseJSON struct {
 	Opt         string   `json:"opt"`
 	NoOptArg    bool     `json:"no_opt_arg,omitempty"`
 	SharedCells bool     `json:"shared_option_cells,omitempty"`
+	Minimal     bool     `json:"minimal_option_form,omitempty"`
 }
 
 func (c *Case) JSON() CaseJSON {
-	j := CaseJSON{ValIDs: c.ValIDs, Enc: c.Enc, Opt: c.Opt.String(), NoOptArg: c.NoOptArg, SharedCells: c.SharedCells}
+	j := CaseJSON{ValIDs: c.ValIDs, Enc: c.Enc, Opt: c.Opt.String(), NoOptArg: c.NoOptArg, SharedCells: c.SharedCells, Minimal: c.Minimal}
 	for _, k := range c.Keys {
 		j.KeysHex = append(j.KeysHex, hex.EncodeToString([]byte(k)))
 	}
@@ -530,7 +553,7 @@ func (c *Case) JSON() CaseJSON {
 }
 
 func (j CaseJSON) Case() *Case {
-	c := &Case{ValIDs: j.ValIDs, Enc: j.Enc, Opt: ParseOpt4(j.Opt), NoOptArg: j.NoOptArg, SharedCells: j.SharedCells}
+	c := &Case{ValIDs: j.ValIDs, Enc: j.Enc, Opt: ParseOpt4(j.Opt), NoOptArg: j.NoOptArg, SharedCells: j.SharedCells, Minimal: j.Minimal}
 	for _, k := range j.KeysHex {
 		b, err := hex.DecodeString(k)
 		if err != nil {
@@ -566,6 +589,8 @@ func (c *Case) Brief() string {
 	form := ""
 	if c.NoOptArg {
 		form = " (no Opt argument)"
+	} else if c.Minimal {
+		form = " (fields at their default left nil)"
 	} else if c.SharedCells {
 		form = " (option fields share one cell per value)"
 	}
@@ -634,12 +659,20 @@ func Build(c *Case) (b *Built, panicked interface{}) {
 			}
 		}()
 		keys := append([]string{}, c.Keys...)
+		enc := b.Encoder
+		if c.Enc == "NilU32" {
+			// "leave the encoder nil if the values are of a fixed-size type": the
+			// library derives the encoder from the value slice
+			enc = nil
+		}
 		if c.NoOptArg {
-			b.ST, b.Err = trie.NewSlimTrie(b.Encoder, keys, b.Values)
+			b.ST, b.Err = trie.NewSlimTrie(enc, keys, b.Values)
+		} else if c.Minimal {
+			b.ST, b.Err = trie.NewSlimTrie(enc, keys, b.Values, c.Opt.ToOptMinimal())
 		} else if c.SharedCells {
-			b.ST, b.Err = trie.NewSlimTrie(b.Encoder, keys, b.Values, c.Opt.ToOptShared())
+			b.ST, b.Err = trie.NewSlimTrie(enc, keys, b.Values, c.Opt.ToOptShared())
 		} else {
-			b.ST, b.Err = trie.NewSlimTrie(b.Encoder, keys, b.Values, c.Opt.ToOpt())
+			b.ST, b.Err = trie.NewSlimTrie(enc, keys, b.Values, c.Opt.ToOpt())
 		}
 		// the slices passed to the builder are the caller's again: they are
 		// overwritten at once (the key slice, every value, the bytes of []byte
